@@ -901,6 +901,10 @@ def _oracle(case, out, exc, wf):
         r = [[[v[0], int(v[1]), v[2], v[3], [[int(a), s] for a, s in v[4]]], x if x == "n" else [int(x[0]), x[1]]]
              for v, x in out[1][1]]
         # compare with the probability of the SIMPLIFIED event (the simplify stream judges simplify itself)
+        if r and all(_var_ok(g, v) for v, _ in r):
+            exp = _expected_factorisation(g, r)
+            if out[1][2] != exp:
+                return f"SIMPLIFY then factorisation: {out[1][2]} differs in shape from Eq. 11-15 for the simplified event: {exp}"
         return _check_factor_value(case, g, r, out[1][2], "SIMPLIFY then factorisation")
     return None
 
